@@ -57,7 +57,8 @@ class C11Engine(Engine):
     rule = ('a run generates one spec model (10% carry one injected rule violation involving two '
             'definitions) and 4-10 delivery schedules of the same definitions: split of each namespace over '
             '1-6 files, file order, definition order, imports placed in any file of the namespace, noise '
-            '(comment / blank / whitespace-only lines, trailing blanks and comments), parenthesised lists '
+            '(comment / blank / whitespace-only lines, trailing blanks and comments), line endings (LF / CRLF / '
+            'mixed), parenthesised lists '
             'broken over continuation lines, and the channel (argv files, --recursive directory with '
             'shuffled listing order, concatenation on stdin delivered in short reads). Every schedule runs '
             'through the real CLI and is compared with the reference layout: verdict, canonical API '
